@@ -31,6 +31,8 @@ FLAG_OF = {"expand_macros": {"expand_macro"}, "fill_in_map": {"expand_let_map"},
 
 def run(ctx, rep):
     ix, T = ctx.ix, ctx.typer
+    from .common import check_shadowed_register_names
+    check_shadowed_register_names(ctx, rep, "C10.11")
     from .common import check_symbolic_qubits_left_alone
     check_symbolic_qubits_left_alone(ctx, rep, "C10.10")
     from .common import check_macro_table_lookup
